@@ -210,6 +210,8 @@ def run_batch(pid, tier, verif_seed, nruns, nworkers, max_wall):
             agg["harness_errors"].append({"run_seed": res.get("run_seed"), "error": res.get("error"), "phase": "recheck"})
             return
         d0 = first.get(res["run_seed"])
+        if res.get("real_timeout_guard"):
+            return  # the wall-clock guard fired in this execution: not comparable
         if d0 is not None and d0 != res["digest"]:
             mismatches.append(res["run_seed"])
 
